@@ -29,7 +29,7 @@ func (c01) Meta() fw.Meta {
 			"raw slot state is read through the live handle (GetAllRawUnsortedPoints) and cross-checked against the harness' own parse of the file bytes at every sync/reopen",
 			"layouts: 1-4 archives, steps 1..3600*60, rings of 1..1500 slots (thorough: a few files > 4 MiB)",
 		},
-		Obligations: []string{"stale_lap_nan_reads", "ring_end_crossing_reads", "page_straddle_slot_reads", "whole_ring_reads", "ring1", "ring2", "negative_distance_reads", "reopen_then_read", "jump_longer_than_retention", "nan_payload_roundtrip", "distance_beyond_31_bits_reads", "file_over_1024_pages", "newer_lap_nan_reads", "clock_stepped_back"},
+		Obligations: []string{"stale_lap_nan_reads", "ring_end_crossing_reads", "page_straddle_slot_reads", "whole_ring_reads", "ring1", "ring2", "negative_distance_reads", "reopen_then_read", "jump_longer_than_retention", "nan_payload_roundtrip", "distance_beyond_31_bits_reads", "file_over_1024_pages", "newer_lap_nan_reads", "clock_stepped_back", "reads_after_waiting_for_writer"},
 	}
 }
 
@@ -396,6 +396,21 @@ func (c01) Run(c *fw.Ctx) {
 						c.Count("empty_slot_nan_reads", 1)
 					}
 				}
+			}
+		}
+	}
+	// a reader whose Open had to wait for a writer's lock reads what that writer synced, not what the file held
+	// when the Open began
+	if c.Index%4 == 1 && l.FileSize() < 8<<20 && !c.Violated() && s.db != nil {
+		if err := s.db.Sync(); err == nil {
+			s.close()
+			diff, waited := waitingOpener(s.path, l, s.now, r)
+			c.Count("reads_after_waiting_for_writer", 1)
+			if waited {
+				c.Count("reader_open_waited_for_writer", 1)
+			}
+			if diff != "" {
+				c.Violationf("fetch-stale-after-waiting-open", fw.J{"layout": l, "now": s.now, "what": diff}, "a handle that waited for the writer's lock does not read the writer's last values: %s", diff)
 			}
 		}
 	}
